@@ -498,5 +498,4 @@ func validText(t *table) bool {
 	return !hasAny(t, true, func(s string) bool { return !utf8.ValidString(s) })
 }
 
-
 var bom = string(rune(0xFEFF))
